@@ -67,15 +67,16 @@ func (c *Client) connect(s *stack.Stack) error {
 		Addr: c.addr,
 		Port: uint16(c.port),
 	}
-	var wq waiter.Queue
+	// 端点必须使用 c.queue 本身(而不是它的一份拷贝)，Write/Close 才能在同一个队列上注册、注销
+	c.queue = waiter.Queue{}
+	wq := &c.queue
 	//新建一个tcp端
-	ep, err := s.NewEndpoint(tcp.ProtocolNumber, ipv4.ProtocolNumber, &wq)
+	ep, err := s.NewEndpoint(tcp.ProtocolNumber, ipv4.ProtocolNumber, wq)
 	if err != nil {
 		log.Println(err)
 		return err
 	}
 	c.ep = ep
-	c.queue = wq
 
 	c.waitEntry, c.notifyC = waiter.NewChannelEntry(nil)
 	wq.EventRegister(&c.waitEntry, waiter.EventOut|waiter.EventIn)
